@@ -354,6 +354,11 @@ func (s *Server) handlePostHalt(w http.ResponseWriter, r *http.Request) {
 		return
 	}
 
+	if name == "" {
+		Error(w, r, fmt.Errorf("name required"), http.StatusBadRequest)
+		return
+	}
+
 	// Cannot issue remote halt lock from this node.
 	if id, _ := litefs.ParseNodeID(r.Header.Get(HeaderNodeID)); id == s.store.ID() {
 		Error(w, r, fmt.Errorf("cannot remotely halt self"), http.StatusBadRequest)
